@@ -316,6 +316,12 @@ func (x *Exec) spawn(st *State, s *ast.GoStmt) {
 	case *ast.SelectorExpr:
 		obj = x.info().Uses[f.Sel]
 	}
+	if _, isLit := ast.Unparen(e.Fun).(*ast.FuncLit); isLit {
+		// an anonymous goroutine: its body runs elsewhere and is not verified (listed as an assumption)
+		x.anonGoroutines = append(x.anonGoroutines, x.fn.name()+" line "+x.line(s))
+		st.note("go func literal")
+		return
+	}
 	fn, ok := obj.(*types.Func)
 	if !ok {
 		x.unsupported(s, "go statement with a non-static callee")
@@ -344,7 +350,8 @@ func (x *Exec) spawn(st *State, s *ast.GoStmt) {
 	env := &SEnv{x: x, st: st, binds: binds, pkg: keyPkg(key)}
 	n := 0
 	for _, c := range spec.Clauses {
-		if c.Kind != "requires" || !c.relevant(x.prop) {
+		if c.Kind != "requires" || !c.relevant(x.prop) || c.Label == "ghost-initial-state" {
+			// the ghost state of a goroutine that does not exist yet is empty by definition
 			continue
 		}
 		n++
@@ -353,6 +360,11 @@ func (x *Exec) spawn(st *State, s *ast.GoStmt) {
 		}
 	}
 	st.note("go " + lastName(key))
+	for _, ev := range x.sp.Events {
+		if ev.Kind == "go" && ev.Pkg == x.fn.pkgPath() && ev.Pattern == shortKey(key) {
+			x.runEvent(st, s, ev, binds)
+		}
+	}
 }
 
 // ------------------------------------------------------------------ inlining
@@ -996,6 +1008,15 @@ func (x *Exec) modAnalysis(loop ast.Stmt, st *State) *modSet {
 					}
 				}
 			}
+		case *ast.GoStmt:
+			if fn := x.staticCallee(s.Call); fn != nil {
+				for _, ev := range x.sp.Events {
+					if ev.Kind == "go" && ev.Pkg == x.fn.pkgPath() && ev.Pattern == shortKey(funcKeyOf(fn)) {
+						x.eventGhosts(ev, ms)
+					}
+				}
+			}
+			return false // the spawned goroutine's frame is not the spawner's
 		case *ast.SendStmt:
 			if ev, _ := x.findEvent("send", s.Chan); ev != nil {
 				x.eventGhosts(ev, ms)
